@@ -2,6 +2,7 @@
 #include "props.hpp"
 
 namespace vf {
+GramDef genTextGramPublic(Choices &c, int tier, bool mutate);
 namespace {
 
 // ---------------------------------------------------------------- defect injection (G-DEFECT)
@@ -17,7 +18,11 @@ void injectDefect(Choices &c, RawGram &g, std::set<std::string> &labels) {
   case 4: g.rules.clear(); labels.insert("d:no-rules"); break;
   case 5: if (nT && nR) { rrule().lhs = g.terms[c.upto(nT - 1)].first; labels.insert("d:term-lhs"); } break;
   case 6: if (nR) { rrule().lhs = "error"; labels.insert("d:error-lhs"); } break;
-  case 7: if (nR) { RawRule &r = rrule(); r.has_anode = false; r.transl_null = false; r.rhs.push_back("a"); r.rhs.push_back("a"); r.transl = {0, 1}; labels.insert("d:two-translations-without-anode"); } break;
+  case 7: if (nR) { RawRule &r = rrule(); r.has_anode = false; r.transl_null = false; r.rhs.push_back("a"); r.rhs.push_back("a");
+      // two or three elements, each an index of the rule or the nil element (`at most one element' is the documented rule)
+      int n = c.range(2, 3); r.transl.clear(); bool nil = false;
+      for (int i = 0; i < n; i++) { if (c.chance(40)) { r.transl.push_back(NILNUM); nil = true; } else r.transl.push_back(c.flip() ? i : c.upto((int)r.rhs.size() - 1)); }
+      labels.insert(nil ? "d:several-translations-without-anode(with-nil)" : "d:several-translations-without-anode"); } break;
   case 8: if (nR) { RawRule &r = rrule(); r.has_anode = true; r.anode = "neg"; r.cost = -1 - c.upto(3); labels.insert("d:negative-cost"); } break;
   case 9: if (nR) { RawRule &r = rrule(); r.transl_null = false; r.has_anode = true; r.anode = "oor"; r.transl.push_back((int)r.rhs.size() + c.upto(3)); labels.insert("d:index-out-of-range"); } break;
   case 10: if (nR) { RawRule &r = rrule(); if (!r.rhs.empty()) { r.transl_null = false; r.has_anode = true; r.anode = "rep"; r.transl = {0, 0}; labels.insert("d:repeated-index"); } } break;
@@ -285,6 +290,9 @@ Case genC11(Choices &c, int tier) {
     std::vector<int> ml = minLen(g);
     for (int k = 0; k < 4; k++) cs.inputs.push_back(toCodes(g, genInputIdx(c, g, ml, 8, c.chance(60) ? 0 : (c.flip() ? 1 : 2))));
   }
+  // prelude: other descriptions (mostly damaged ones) given to other grammar objects of the same process first; what a
+  // description denotes must not depend on what the description reader saw before
+  if (c.chance(45)) { int n = c.range(1, 2); for (int i = 0; i < n; i++) { bool mut = c.chance(80); cs.grams.push_back(genTextGramPublic(c, tier, mut)); } lb.insert("x:after-other-descriptions"); }
   int li = 0;
   for (auto &l : lb) cs.par["L" + std::to_string(li++) + ":" + l] = 1;
   return cs;
@@ -296,6 +304,15 @@ Verdict runC11(const Case &cs) {
   for (auto &p : cs.par) if (p.first[0] == 'L') v.labels.insert(p.first.substr(p.first.find(':') + 1));
   bool mutated = cs.P("mutated") != 0;
   const GramDef &td = cs.grams[0], &tw = cs.grams[1];
+  for (size_t i = 2; i < cs.grams.size(); i++) {
+    Binding *bp = newCBinding();
+    if (!bp->create()) { v.fail("yaep_create_grammar returned NULL"); return v; }
+    int rp = defineGrammar(*bp, cs.grams[i]);
+    v.parses++;
+    v.labels.insert(rp ? "prelude:rejected" : "prelude:accepted");
+    if (rp != 0 && (rp < E_SYNTAX || rp > E_LOOP)) { v.fail("prelude description: undocumented result " + std::to_string(rp) + " msg='" + bp->error_message() + "'"); return v; }
+    bp->destroy(); delete bp;
+  }
   Binding *bt = newCBinding(), *bc = newCBinding();
   if (!bt->create() || !bc->create()) { v.fail("yaep_create_grammar returned NULL"); return v; }
   int rt = defineGrammar(*bt, td);
@@ -373,7 +390,8 @@ extern const PropDef g_props_def[] = {
      "implicit codes, character constants incl. the quote and other punctuation, optional cost, `#', `# k', `# -', `# name [cost] (..-..)'), twin "
      "object defined through read_grammar with what the manual says the text denotes; oracle: same definition result and identical outcome "
      "tuples (rc, callbacks, ambiguity flag, denoted trees with costs) on 4 inputs x 2 configurations. 25% of the texts are mutated (delete, "
-     "insert, replace, truncate, duplicate): result must be 0 or a documented code, syntax errors must name a line inside the text. "
+     "insert, replace, truncate, duplicate): result must be 0 or a documented code, syntax errors must name a line inside the text. 45% of the "
+     "cases first give 1-2 other (mostly damaged) descriptions to other objects of the same process. "
      "Non-trivial: text with implicit codes or character constants and >= 2 inputs compared, or a mutated text.",
      15},
 };
